@@ -359,9 +359,10 @@ def r6_filters(ctx: Context) -> None:
         return
     i, flt = (src(x) for x in lp.target.elts)
     # None branch: some assignment selects a plain subscript of the simulated ensemble
-    none_cands = [s_.value for s_ in ast.walk(lp) if isinstance(s_, ast.Assign) and isinstance(s_.value, ast.Subscript) and src(s_.value.value) == sim]
     # filter branch: calls of the loop's filter variable
     filt_calls = [c for c in ast.walk(lp) if isinstance(c, ast.Call) and src(c.func) == flt]
+    in_filter = {id(x) for c in filt_calls for x in ast.walk(c)}
+    none_cands = [x for x in ast.walk(lp) if isinstance(x, ast.Subscript) and isinstance(x.ctx, ast.Load) and src(x.value) == sim and id(x) not in in_filter]
     if not none_cands or not filt_calls:
         raise AnalysisError(f"{f.loc(lp)}: _filter_data is not in a recognised per-coordinate form (None branch selecting sim[:, :, i]; filter applied per member); cannot decide R6")
     for v in none_cands:
